@@ -1,7 +1,7 @@
 #!/bin/bash
 # Runs the registered checks against every seeded change in seeded/*/ on scratch worktrees of
 # /repo's HEAD (never /repo itself) and writes seeded/RESULTS.json + RESULTS.md.
-# usage: tools/run_seeded.sh [secs per check] [name ...]
+# usage: [WORKERS=n] tools/run_seeded.sh [secs per check] [name ...]
 cd "$(dirname "$0")/.."
 V=$(pwd)
 SECS="${1:-60}"; shift
@@ -16,7 +16,7 @@ for n in $NAMES; do
   if ! git -C "$WT" apply "$d/patch.diff"; then echo "{\"seed\":\"$n\",\"error\":\"patch does not apply\"}" >> "$RES"; git -C /repo worktree remove --force "$WT"; continue; fi
   for id in $(python3 -c "import json;print(' '.join(json.load(open('$d/meta.json'))['checks_to_run']))"); do
     log="$OUT/$n-$id.log"
-    VERIF_REPO="$WT" VERIF_OUT="$OUT/$n" "$V/bin/check" "$id" --tier quick --secs "$SECS" > "$log" 2>&1
+    VERIF_REPO="$WT" VERIF_OUT="$OUT/$n" "$V/bin/check" "$id" --tier quick --secs "$SECS" ${WORKERS:+--workers $WORKERS} > "$log" 2>&1
     code=$?
     viol=$(grep -m1 -A1 '^VIOLATION' "$log" | tail -1 | sed 's/^ *//' | cut -c1-160)
     python3 - "$n" "$id" "$code" "$viol" >> "$RES" <<'PY'
